@@ -155,6 +155,7 @@ pub fn base_profile(prop: &'static str) -> Profile {
 }
 
 const W_TREE: &[(K, u64)] = &[
+    (K::UnwindScope, 3),
     (K::Root, 6),
     (K::Child, 12),
     (K::ChildLocal, 10),
@@ -603,6 +604,7 @@ pub fn profile(prop: &str) -> Profile {
         "C13" => Profile {
             prop: "C13",
             callers: (0, 3),
+            unsampled_pct: 20,
             cancelable_pct: 50,
             weights: W_ASYNC,
             atomic_pct: 50,
@@ -615,6 +617,7 @@ pub fn profile(prop: &str) -> Profile {
         "C14" => Profile {
             prop: "C14",
             callers: (0, 3),
+            unsampled_pct: 20,
             cancelable_pct: 50,
             weights: W_ASYNC,
             atomic_pct: 50,
@@ -1331,6 +1334,7 @@ pub fn gen_sched(rng: &mut Rng, p: &Profile, seed: u64, interval: u64) -> SchedC
         max_steps: 40_000,
         stall,
         wall_steps,
+        reporter_traces: rng.pct(p.reentrant_pct / 4),
         report_stall: if rng.pct(p.stall_pct / 2) {
             Some((rng.below(5) as u32, 5_000 + rng.below(4) * interval.max(10_000)))
         } else {
